@@ -7,6 +7,10 @@ Line protocol for the C15 model (`Model/FailureProb.lean`) at `Float`.  Ops:
   c15.simple sm ss load                -> hex hex        (pf_simple_load and its complement)
   c15.norm   sm ss lm ls               -> hex hex        (pf_norm_load and its complement 1 − pf = Φ(−z))
   c15.arb    sm ss (x pdf)*            -> hex            (pf_arbitrary_load)
+  c15.normw  sm ss lm ls lo hi         -> hex            (pf_norm_load AS THE CODE COMPUTES IT, `pfNormLoadCode`: standardised
+                                                          window, cdf / sf branch; lo, hi = explicit limits in log10 units or
+                                                          `-` for the default; `quad` = composite Gauss–Legendre on the
+                                                          pieces between the limits and transition ± 10 strength_std)
 
 `Φ` at `Float`: Marsaglia's series for |x| ≤ 2.5, the Laplace continued fraction of the Mills ratio beyond;
 relative accuracy about 1e-14 in BOTH tails (the upper tail value is returned separately as Φ(−x), never as 1 − Φ).
@@ -45,7 +49,42 @@ def parsePairs : List String → Option (List (Float × Float))
     some ((x, y) :: r)
   | _ => none
 
+/-- Stand-in for `scipy.integrate.quad` on `[a, b]`: composite 8-point Gauss–Legendre on the pieces cut by the candidate
+break points `transition ± width` (the strength distribution's ±10 σ), panel width half of the shorter scale. -/
+def quadGL (transition width scale : Float) (f : Float → Float) (a b : Float) : Float := Id.run do
+  let a := if a < -40.0 then -40.0 else a        -- the standard normal density is 0.0 in double precision beyond 38.6
+  let b := if b > 40.0 then 40.0 else b
+  if !(a < b) then return 0.0
+  let clip := fun (x : Float) => if x < a then a else if x > b then b else x
+  let edges := [clip (transition - width), clip (transition + width), b]
+  let mut s := 0.0
+  let mut left := a
+  for e in edges do
+    let len := e - left
+    if len > 0.0 then
+      let inner := left ≥ transition - width && e ≤ transition + width
+      let sc := if inner && scale < 1.0 then scale else 1.0
+      let nf := Float.ceil (len / (0.5 * sc))
+      let nf := if nf < 1.0 then 1.0 else if nf > 20000.0 then 20000.0 else nf
+      let n := nf.toUInt64.toNat
+      s := glComposite f (len / nf) n left s
+    left := e
+  return s
+
+def parseLimit? (s : String) : Option (Option Float) :=
+  if s == "-" then some none else (parseFloat? s).map some
+
 def handle : List String → Option String
+  | ["c15.normw", sm, ss, lm, ls, lo, hi] => do
+    let sm ← parseFloat? sm
+    let ss ← parseFloat? ss
+    let lm ← parseFloat? lm
+    let ls ← parseFloat? ls
+    let lo ← parseLimit? lo
+    let hi ← parseLimit? hi
+    let loc := Float.log10 sm - Float.log10 lm
+    let quad := quadGL (loc / ls) (10.0 * ss / ls) (ss / ls)
+    some (floatHex (pfNormLoadCode phi (fun x => phi (-x)) normPdf quad sm ss lm ls lo hi))
   | ["c15.phi", x] => do
     let x ← parseFloat? x
     some s!"{floatHex (phi x)} {floatHex (phi (-x))}"
